@@ -612,3 +612,48 @@ def case_dict(kind_, ty, v, **kw):
     d = {'kind': kind_, 'ty': sx(ty), 'val': sx(v)}
     d.update(kw)
     return d
+
+
+# ------------------------------------------------------------------ in-place update of an object that was already encoded
+def apply_in_place(B, ty, rec, v2, rng, top=None):
+    """Move the record instance `rec` (schema `ty`) towards the value `v2` WITHOUT replacing the objects it already holds where
+    that is possible: nested records are updated through the reference the parent holds, lists are changed in place (slice
+    assignment, clear + extend, element-wise), scalars are assigned on the record itself (or, for the body of a message `top`,
+    randomly through the message's own attribute).  What the object holds afterwards is read back with `to_val`."""
+    ftypes = {n: fty for n, fty, _ in fields_of(ty)}
+    if v2 == 'none' or v2[0] != 'r':
+        return
+    for n, fv in v2[1:]:
+        fty = ftypes.get(n)
+        if fty is None:
+            continue
+        name = f'f{n}'
+        cur = rec.values.get(name)
+        k = kind(fty)
+        if k in ('record', 'optrec') and cur is not None and fv != 'none' and fv[0] == 'r' and rng.random() < 0.75:
+            apply_in_place(B, fty, cur, fv, rng)
+        elif k == 'arr' and isinstance(cur, list) and fv != 'none' and fv[0] == 'l' and rng.random() < 0.75:
+            new = B.from_val(fty, fv, typed=True)
+            c = rng.random()
+            if c < 0.35:
+                cur[:] = new
+            elif c < 0.7:
+                cur.clear()
+                cur.extend(new)
+            else:
+                e = elem_ty(fty[1])
+                for i, x in enumerate(new):
+                    if i < len(cur):
+                        if kind(e) in ('record', 'optrec') and cur[i] is not None and fv[1 + i] != 'none' and fv[1 + i][0] == 'r':
+                            apply_in_place(B, e, cur[i], fv[1 + i], rng)
+                        else:
+                            cur[i] = x
+                    else:
+                        cur.append(x)
+                del cur[len(new):]
+        else:
+            pv = B.from_val(fty, fv, typed=True)
+            if top is not None and rng.random() < 0.5:
+                setattr(top, name, pv)
+            else:
+                setattr(rec, name, pv)
